@@ -14,7 +14,7 @@ RULE = ("Part A (solver level, maxfun = npt, abs_tol = 0 so exactly the initial 
         "distance to x0 within [0.01, 2]*rhobeg*(1+-1e-9), [1 | (X-x0)/rhobeg] of full rank n+1 with condition number < 1e4. Part B: both "
         "random direction generators driven directly on all active-set patterns {free, lower active, upper active}^n for n <= 4 x delta in "
         "{0.1, 1, 2.5, tiny} x requested counts, sampled beyond, and in situ in solver runs: shape, exact box membership, length <= "
-        "delta(1+1e-12), no zero direction. Non-trivial = placement with >= 1 coordinate not interior / generator call with >= 1 active "
+        "delta(1+1e-12). Non-trivial = placement with >= 1 coordinate not interior / generator call with >= 1 active "
         "bound; distinct by pattern")
 ASSUMPTIONS = ["finding D20: the orthogonal generator deliberately emits 'extra directions for active constraints' of length up to 2*delta "
                "(one non-zero component at an actively bounded coordinate, row index >= n + #inactive)"]
@@ -134,7 +134,7 @@ def run_enum(case, res):
     allc = enum_cases(case["enum_n"])
     rhobeg = 0.1
     for (n, pat, npt, tight) in allc[case["start"]:case["start"] + case["count"]]:
-        base = np.array([0.3, -1.7, 12.5])[:n]
+        base = np.array([0.3, -1.7, 12.5, -0.04, 250.0])[:n]
         gap = np.full(n, 2 * rhobeg if tight else 1.7)
         lo = base.copy()
         hi = lo + gap
@@ -205,8 +205,10 @@ def check_dirs(name, dirs, num_pts, delta, lower, upper, tag, viol, st, with_neg
         add("generator-outside-box", "a direction leaves [lower, upper] by %.3g" % float(max(np.max(lower - dirs), np.max(dirs - upper))), dirs=dirs)
     ln = np.linalg.norm(dirs, axis=1)
     if np.any(ln == 0):
-        add("generator-zero-direction", "direction %d is zero" % int(np.argmax(ln == 0)), dirs=dirs)
-    active = (lower == 0) | (upper == 0)
+        # observation only: the property promises the count, the box and the length, not a minimum length (with x0 one
+        # denormal above a bound the admissible step in that coordinate is 5e-324 and the norm underflows to 0)
+        st["observation|zero-length-direction"] = st.get("observation|zero-length-direction", 0) + 1
+    active = (lower >= -1e-15 * delta) | (upper <= 1e-15 * delta)     # 'active' as the generators define it (bound within rounding level)
     ninact = int(n - np.sum(active))
     for k in np.where(ln > delta * (1 + 1e-12))[0]:
         nz = np.nonzero(dirs[k])[0]
@@ -375,5 +377,6 @@ def finalize(agg):
                condition_number_histogram={k: int(v) for k, v in st.items() if k.startswith("cond<")},
                generator_calls={k.split("|")[1]: int(v) for k, v in st.items() if k.startswith("generator_calls|")},
                generator_patterns_enumerated=int(st.get("generator_patterns_enumerated", 0)),
-               generator_calls_in_situ=int(st.get("insitu_generator_calls", 0)))
+               generator_calls_in_situ=int(st.get("insitu_generator_calls", 0)),
+               observation_zero_length_directions=int(st.get("observation|zero-length-direction", 0)))
     return cov, reasons
